@@ -13,7 +13,7 @@ CLAIMED = {
     'C08': ('Every obligation (ring laws of SeqNum, diff/ordering over half the ring, BitField.insert/contains '
             'against a ghost receive set for widths 8..256, ack/ack_bits naming through the real header codec and '
             '_handle_ack_bits, the _recv_datagram gate accepting a genuine datagram up to the window edge exactly when it was not received before, the message gate delivering a message (APP / APP_FRAGMENT) at any offset -32767..32767 from an arbitrary 256-bit window exactly when it was not received before and never flagging a never-received message older than the window) is an SMT query over the whole value domain on every execution path of the real source; '
-            'one inductive window step from an arbitrary state covers insertion histories of any length.',
+            'one inductive window step from an arbitrary state covers insertion histories of any length. A complementary API-only lemma (L8.8) builds BitField through its constructor and inserts 3-4 numbers at representative offsets around every window boundary at both ends of the ring: refused exactly when received before inside the window, contains() agrees - this one does not depend on the representation the state-injecting lemmas write.',
             'Trusted: the sx engine (proxy semantics for int/bit operations, validated by running the repo tests '
             'concretely through it), z3, the struct model. Bounds: values are the full 16-bit domain, offsets '
             '|d| <= 32767 as the statement says; window widths enumerated (quick 8/32/256, thorough every multiple of 8).',
@@ -22,7 +22,7 @@ CLAIMED = {
             'payloads of symbolic length (CRC form and AEAD form); packing is executed from an arbitrary queue with a '
             'symbolic MTU (512..1500): every datagram is proven <= MTU-28, messages that fit together are proven to '
             'leave together, and construction is proven never to raise or lose messages, including 255/256/300 tiny '
-            'messages per tick; whatever send() queues for a payload of any length is admitted by the packer for every MTU (the queue drains, L9.6).',
+            'messages per tick; whatever send() queues for a payload of any length is admitted by the packer for every MTU (the queue drains, L9.6). The retransmission path is driven too: hundreds of unacknowledged BEST_EFFORT messages that come due in one tick are re-sent once each under the same count and size limits.',
             'Trusted: sx engine, struct/crc/AEAD models (crc32 uninterpreted, AEAD ideal). Bounds: <= 3 (thorough 6) '
             'messages per packet in the codec round trip, queue <= 3 new + 2 resend messages (thorough 4+2) in the MTU lemma, '
             'tiny-message instances n in {2,255,256,300} (thorough up to 600); payload lengths free within the stated ranges.',
@@ -108,7 +108,7 @@ CLAIMED = {
             '(non-termination is reported as a violation and replayed under an alarm), with work and number of stream reads linear in n. '
             'A per-container lemma runs each length-prefixed reader with an arbitrary declared length (any 41-bit int) against a '
             'stream that actually holds 0..k elements: the loop count is bounded by the elements present, never by the declared '
-            'length, over-limit lengths are refused, reads never return more than is present. The three handshake entry points run '
+            'length, over-limit lengths are refused, reads never return more than is present, and a successful read leaves the position past its own length prefix (progress: the measure of the induction over remaining bytes; negative declared lengths included). The three handshake entry points run '
             'on arbitrary message bytes (symbolic bytes, or the right type id around arbitrary fields).',
             'Trusted: sx engine, BytesIO/struct models, ideal crypto model for the key/signature parsing steps. Work is counted in '
             'loop iterations, function entries and stream reads of the Python code, not in bytes allocated by CPython. Bounds: n <= 4 '
@@ -157,7 +157,7 @@ CLAIMED = {
             'received message seq (APP or APP_FRAGMENT, any offset) is proven not to deliver or store it again, except in the open '
             'known finding F4b (more than 256 newer messages in between), whose complement is proven; a bounded two-endpoint scenario '
             'delivers three recorded datagrams (any retry modes, piggy-backed retransmissions) in every order with repeats; both timeout re-queue paths (RetrySender, FragmentSender.callback) are proven to re-queue the identical message under its original message sequence number. '
-            'Violations are replayed through the public API (deliver, d newer datagrams, deliver again). The application-facing ends are covered too: UdpClient.hasMessages/getMessage/getMessages hand each delivered message out once for every mix of the getters (L4.5), and the real server loop hands each message of a batch to the handler at most once whatever subset of them the handler raises on (L4.6).',
+            'Violations are replayed through the public API (deliver, d newer datagrams, deliver again). The application-facing ends are covered too: UdpClient.hasMessages/getMessage/getMessages hand each delivered message out once for every mix of the getters (L4.5), and the real server loop hands each message of a batch to the handler at most once whatever subset of them the handler raises on (L4.6). Through the API only (nothing injected): a message whose ack is withheld is retransmitted behind a burst of k newer messages (k on both sides of the 32-datagram mark, inside the 256-message window) and is delivered once (L4.7).',
             'Trusted: sx engine, ideal AEAD, C08 (window exactness inside the window). Retransmission identity (same seq/type/payload) '
             'is C05 L5.4 / C06 L6.4. Bounds: one pending entry in the step lemmas; scenario of 3 datagrams and <= 4 (thorough 6) deliveries.',
             'DESIGN.md §6 C04'),
@@ -169,7 +169,7 @@ CLAIMED = {
             'liveness clock, both windows, queues, pending sends, token, fragments) unchanged, nothing acknowledged, timed out or '
             'delivered, counted as dropped. A second lemma takes a genuine sealed datagram from the real peer object and lets the '
             'attacker rewrite any header field, cut the ciphertext anywhere and append junk: never accepted. Keyless endpoints: '
-            'nothing but the single expected hello is dispatched, no application message or fragment, no status change. At the server gate (real UdpServerThread loop): a forged CRC datagram of any type from the address of a half-open connection that already holds a key leaves the connection object, key, token and status untouched and the genuine handshake completes (L1.4).',
+            'nothing but the single expected hello is dispatched, no application message or fragment, no status change. At the server gate (real UdpServerThread loop): a forged CRC datagram of any type from the address of a half-open connection that already holds a key leaves the connection object, key, token and status untouched and the genuine handshake completes (L1.4). The arbitrary state includes every integer counter of the connection and its statistics object (also counters the harness does not know by name), so threshold logic fed by earlier hostile datagrams is part of the step. A clear-text datagram that carries a genuine hello followed by a second message never gets that second message to the application (L1.5, real hello handler).',
             'Trusted/assumed: AES-GCM is an ideal AEAD and CRC-32 is public (real-world strength of AES-GCM is not shown); sx engine, '
             'struct model. Bounds: <= 2 inner messages, body <= 40 + tail <= 24 bytes (every byte the parser reads is symbolic), one '
             'pending datagram; genuine datagram of one message <= 200 bytes. Identical copies are replays (C04). The server gate is C10/C11.',
